@@ -142,7 +142,7 @@ REP_PARAMS = [
 
 def rep_tasks(oracles, budget, graphs=None, params=None, exit_sets=None, cancel_sets=None, **kw):
     tasks = []
-    graphs = graphs or [g for g in S.REP if g not in ("cancelfan7", "indep4", "wide5", "fan5")]  # heavy ones only when named
+    graphs = graphs or [g for g in S.REP if g not in ("cancelfan7", "indep4", "wide5", "fan5", "joinbacklog5")]  # heavy ones only when named
     for g in graphs:
         bb = S.REP[g]
         n = len(bb)
@@ -317,9 +317,22 @@ def local_tasks(oracles, ns=(1, 2, 3), exits=False, flags=False, stutter=1):
     return tasks
 
 
+def backlog_tasks(oracles):
+    """A flagged (and an unflagged) job with two blockers queued behind a backlog of unblocked jobs; one blocker
+    fails while the other is still running (2 processes, one queue; local and one batch)."""
+    tasks = []
+    for flag in (0, 1):
+        for ec in ((1, 0, 0, 0, 0), (0, 1, 0, 0, 0), (1, 1, 0, 0, 0)):
+            for tag, gkw, kw in (("one-batch-q2", dict(size=5, nproc=2), {}), ("local-q2", dict(nproc=2), dict(mode="local", actors=[]))):
+                sc = mk_scen(S.REP["joinbacklog5"], gkw, exit_codes=ec, cancel=(0, 0, 0, 0, flag), stutter=1, **kw)
+                tasks.append(dict(id=f"backlog-{tag}-e{''.join(map(str, ec))}-f{flag}", scen=sc, oracles=["Obs"] + oracles, budget=(0, 0), cls="queue-backlog"))
+    return tasks
+
+
 def c02_extra(tier):
     """Failures inside one node queue (which blockers are removed when) and commands that cannot be spawned."""
     tasks = local_tasks(["C02"], ns=(3,) if tier == "quick" else (3, 4), exits=True)
+    tasks += backlog_tasks(["C02"])
     for gi, bb in enumerate(S.dags(3)):
         if not any(bb):
             continue
@@ -425,6 +438,7 @@ def _c0304(prop, tier):
         tasks += manual_submitter_tasks([prop], (0, 0), ["pair", "chain2", "fork"])
         tasks += rep_tasks([prop], (0, 0), graphs=["fan5"], params=[("one-batch-q2", dict(size=5, nproc=2)), ("sz2-q1", dict(size=2, nproc=1)), ("local", dict(nproc=2))],
                            exit_sets=lambda n: [None, (1, 0, 0, 0, 0), (0, 1, 0, 0, 0)], cancel_sets=lambda n: [(0, 1, 0, 1, 0)], stutter=1)
+        tasks += backlog_tasks([prop])
         tasks += rep_tasks([prop], (0, 0), graphs=["cancelfan7"], params=[("one-batch-q2", dict(size=7, nproc=2)), ("sz3-q2", dict(size=3, nproc=2))],
                            exit_sets=lambda n: [(0, 1, 0, 0, 0, 0, 0)], cancel_sets=lambda n: [(0, 0, 1, 1, 1, 0, 0)], stutter=1)
         bounds = ("G(1..3) x exit codes {0,1}^n x cancel flags on blocked jobs x 7 parameter sets (incl. two groups, max-nodes 1, local, time-based) "
@@ -521,6 +535,7 @@ def c06(tier):
     tasks += rep_tasks(["C06"], (0, 0) if tier == "quick" else (1, 0), graphs=["chain3", "fork", "diamond", "wide5"],
                        params=[("sz3-q2-mx1", dict(size=3, nproc=2, max_nodes=1)), ("sz2-q1-mx2", dict(size=2, nproc=1, max_nodes=2))],
                        exit_sets=fail_sets, cancel_sets=lambda n: [(1,) * n])
+    tasks += shard(rep_tasks(["C06"], (1, 0), graphs=["indep4"], params=[("sz1-mx3", dict(size=1, max_nodes=3))]), 4)
     # two groups with different process limits
     for g in ("indep4", "twocomp", "wide5"):
         bb = S.REP[g]
@@ -562,6 +577,16 @@ E_ASSUMPTIONS = [
 ]
 
 
+def c18_system_tasks(tier):
+    b = (1, 0) if tier == "quick" else (2, 0)
+    st = rep_tasks(["C18S"], b, graphs=["pair", "indep3", "chain3", "fork", "twocomp"], params=[("sz1-mx2", dict(size=1, max_nodes=2)), ("sz1-mxN", dict(size=1, max_nodes=None)), ("sz2-mxN", dict(size=2, max_nodes=None))])
+    st += user_round_tasks(["C18S"], (0, 0) if tier == "quick" else (1, 0), ["pair", "indep3"])
+    st += shard(rep_tasks(["C18S"], (1, 0), graphs=["indep4"], params=[("sz1-mx3", dict(size=1, max_nodes=3))]), 4)
+    for t in st:
+        t["id"] = "c18s-" + t["id"]
+    return st
+
+
 @check("C18")
 def c18(tier):
     return modee.enum_check(
@@ -570,7 +595,9 @@ def c18(tier):
         "(b) squeue outputs with 0-2 batches over all 24 SLURM states x 8 whitespace shapes through HpcStatusCollector/AsyncHpcSubmitter.is_complete; "
         "(c) 7 sbatch answers through JobQueue.submit(AsyncHpcSubmitter); (d) every outcome sequence over {ok, transient, listed-permanent} of length retries+1, retries 0-3, 3 calling modes through run_command. "
         "non-trivial: at least one optional field set / retries > 0 / any status case",
-        E_ASSUMPTIONS + ["an AssertionError of the status parser on a malformed line is not counted as 'treated as finished' (recorded as a note)"])
+        E_ASSUMPTIONS + ["an AssertionError of the status parser on a malformed line is not counted as 'treated as finished' (recorded as a note)",
+                         "system-level part (mode S): after every submitter round each batch that is pending/running in the simulated scheduler is still listed as active"],
+        system_tasks=c18_system_tasks(tier))
 
 
 @check("C20")
@@ -789,6 +816,7 @@ def c14(tier):
             for j in t["scen"]["jobs"]:
                 j["est"] = 2
         tasks += tb
+        tasks += shard(cancel_tasks(["C14"], (1, 0), ["chain2", "pair"], followups=False, params=[("sz1-mx1", dict(size=1, max_nodes=1)), ("sz1-mxN", dict(size=1, max_nodes=None))]), 4)
         tasks += cancel_tasks(["C14"], (0, 0), graphs + ["join", "twocomp"], followups=False,
                               params=[("sz1-mxN", dict(size=1, max_nodes=None)), ("sz2-mx2", dict(size=2, max_nodes=2))])
     else:
@@ -802,7 +830,7 @@ def c14(tier):
         tasks += shard(tb, 4)
         tasks += shard(cancel_tasks(["C14"], (2, 0), ["indep3", "chain3"], followups=False), 32)
     bounds = (f"{len(graphs)} REP graphs x max-nodes {{1,unset}} (count-based and time-based batching) with cancel-jobs starting at any point (free first step) followed by every sequence of length <=2 over "
-              f"{{try-submit-jobs, show-status -n}} and the surviving nodes' rounds; " + ("budget 0 (cancel at every point, default continuation, all job-finish orders and lingering-CANCELLED answers)" if tier == "quick" else "1 preemption for all, 2 for the no-follow-up scenarios on 2 graphs"))
+              f"{{try-submit-jobs, show-status -n}} and the surviving nodes' rounds; " + ("budget 0 (cancel at every point, default continuation, all job-finish orders and lingering-CANCELLED answers); 1 preemption on the 2-job graphs" if tier == "quick" else "1 preemption for all, 2 for the no-follow-up scenarios on 2 graphs"))
     return explore_check("C14", tier, tasks, S_RULE, COMMON_ASSUMPTIONS + ["scancel kills the node at once; a cancelled batch may linger in squeue as CANCELLED (zero-cost choice per query)"], dict(bounds=bounds))
 
 
@@ -1201,6 +1229,17 @@ def c10(tier):
                     drivers = [dict(name=f"H{i + 1}", kind="handle", host=hosts[i], ops=list(s)) for i, s in enumerate((s1, s2, s3))]
                     tasks.append(f_task(f"c10-3x-{''.join(s1)}|{''.join(s2)}|{''.join(s3)}", "cluster", drivers, "C10", (3, 0)))
         bounds = "2 handles x every pair of sequences of length <=2 over the full alphabet {D,P,p,d,us(a|c),uc(a|c),m,h,g}, all interleavings; length 3 over the core alphabet (every 7th partner) at budget 3; 3 handles x length <=2 (subsample of partners, stated strides) at budget 3"
+    # a handle killed at any point of its critical section (the state is then judged against the JSON files);
+    # same host + break_stale, because only then can the survivor ever take the dead handle's lock
+    kseqs = [("D", "usa"), ("P", "d"), ("D", "m"), ("P", "usa"), ("D", "h")]
+    for s1 in kseqs:
+        for s2 in kseqs:
+            drivers = [dict(name="H1", kind="handle", host="h1", ops=list(s1)), dict(name="H2", kind="handle", host="h1", ops=list(s2))]
+            t = f_task(f"c10-kill-{''.join(s1)}|{''.join(s2)}", "cluster", drivers, "C10", (2, 1) if tier == "quick" else (99, 1))
+            t["scen"]["lockmode"] = "break_stale"
+            t["fault"] = dict(plan="kill_any", victims=["H1"])
+            tasks.append(t)
+    bounds += "; 25 pairs of length-2 sequences on one host with the first handle killed at any sync point (lock behaviour break_stale)"
     # system-level half: the CLI commands' use of the role (try-submit-jobs shortcuts, user commands on the
     # submitter's own host, rounds that overlap)
     sb = (1, 0) if tier == "quick" else (2, 0)
@@ -1215,11 +1254,20 @@ def c10(tier):
                       dict(name="late2", argv=["jade", "try-submit-jobs", "{out}"], host="login6", guard="complete_any", after="late")]
             sc = mk_scen(bb, dict(size=1, max_nodes=None), actors=actors)
             st.append(dict(id=f"late-{g}-{host}", scen=sc, oracles=["Obs", "C10S"], budget=(1, 0), cls="late-user-round"))
+    # cancel-jobs from the submitter's own host and from another one, at any point
+    for t in cancel_tasks(["C10S"], (0, 0), ["pair", "chain3"], followups=False, params=[("sz1-mx1", dict(size=1, max_nodes=1)), ("sz1-mxN", dict(size=1, max_nodes=None))]):
+        for host in ("login1", "n101", "login4"):
+            import copy
+
+            t2 = copy.deepcopy(t)
+            t2["scen"]["actors"][0]["host"] = host
+            t2["id"] += "-" + host
+            st.append(t2)
     for t in st:
         t["id"] = "c10s-" + t["id"]
     tasks += st
     bounds += ("; system level: the submitter field on disk across real submit-jobs / run-jobs / try-submit-jobs processes (REP graphs, "
-               f"{sb[0]} preemption(s); user-run try-submit-jobs at any point from the submitter's host and another; try-submit-jobs on a submission that is completing / complete)")
+               f"{sb[0]} preemption(s); user-run try-submit-jobs at any point from the submitter's host and another; try-submit-jobs on a submission that is completing / complete; cancel-jobs at any point from three hosts)")
     return explore_check("C10", tier, tasks, F_RULE + "; the system-level scenarios use the mode-S rule", F_ASSUMPTIONS + ["reference for return values/final files: the same operations executed one at a time in lock-acquisition order by the real Cluster class (linearizability witness); mutual exclusion, promotion and stale-write clauses are independent of it"], dict(bounds=bounds))
 
 
